@@ -62,6 +62,7 @@ JudgeLValid(e) ==
 Judge(e) ==
   CASE e.ev = "desctable" -> JudgeDescTable(e)
     [] e.ev = "ctor" -> JudgeCtor(e)
+    [] e.ev = "alias" -> When(~e.same, "a parsed descriptor changed when the buffer it was parsed from was overwritten (a descriptor is a value)")
     [] e.ev = "xaddr" -> JudgeXAddr(e)
     [] e.ev = "daddr" -> JudgeDAddr(e)
     [] e.ev = "laddr" -> JudgeLAddr(e)
